@@ -180,6 +180,28 @@ def check_panel(case):
                 fails.append(fail('field values depend on the ordering of the points', sig=None, **ctx))
         if len(fails) > 8:
             break
+    # forms of the amplitude vector: a non-contiguous view (e.g. a column of a mode matrix, every second entry of a longer vector) and a
+    # list must give what the contiguous array gives
+    if case['pset'] in ('scatter7', 'single') and not fails:
+        g = 1e-3 * np.array([seed_eps(seed, 500 + i) for i in range(ref.size)])
+        mat = np.column_stack((0.3 * g, g, -2.0 * g))                 # C-ordered (size, 3): column 1 is strided
+        forms = {'column of a matrix': mat[:, 1], 'every second entry': np.column_stack((g, 7.0 * g)).ravel()[::2], 'list': list(g)}
+        kw = dict(xs=xs_in.copy(order='K'), ys=ys_in.copy(order='K'))
+        base_u = [np.array(v) for v in p.uvw(g.copy(), **kw)]
+        base_e = p.strain(g.copy(), NLterms=False, **kw) if case['model'] != 'plate_w' else None
+        base_s = p.stress(g.copy(), NLterms=False, **kw) if case['model'] != 'plate_w' else None
+        for fname, cform in forms.items():
+            got_u = p.uvw(cform, **kw)
+            execs += 1
+            bad = any(not np.array_equal(np.asarray(a), b) for a, b in zip(got_u, base_u))
+            if base_e is not None:
+                ge, gs = p.strain(cform, NLterms=False, **kw), p.stress(cform, NLterms=False, **kw)
+                execs += 2
+                bad = bad or any(not np.array_equal(np.asarray(ge[k]), np.asarray(base_e[k])) for k in ('exx', 'eyy', 'gxy', 'kxx', 'kyy', 'kxy'))
+                bad = bad or any(not np.array_equal(np.asarray(gs[k]), np.asarray(base_s[k])) for k in ('Nxx', 'Nyy', 'Nxy', 'Mxx', 'Myy', 'Mxy'))
+            if bad:
+                fails.append(fail('fields for an amplitude vector given as %s differ from those for the same values in a contiguous array' % fname,
+                                  sig=None, case=case))
     # history edge on the same object: the switch force_orthotropic_laminate turned on and off again between field evaluations
     if cfg['model'] != 'plate_w' and case['pset'] in ('scatter7', 'edges'):
         c = 1e-3 * np.array([seed_eps(seed, 500 + i) for i in range(ref.size)])
